@@ -3,6 +3,8 @@
 import AxVerif.Model.Bytes
 import AxVerif.Model.Cache
 import AxVerif.Model.Config
+import AxVerif.Driver.Sql
+import AxVerif.Driver.Hist
 namespace AxVerif.Cache
 open AxVerif
 
@@ -33,6 +35,9 @@ def parseCOp : List String → Option COp
   | ["drain"] => some .drain
   | ["setcap", n] => (nat? n).map .setcap
   | ["stat"] => some .stat
+  | ["churn", n] => match nat? n with
+    | some n => if n ≤ 200000 then some (.churn n) else none
+    | none => none
   | _ => none
 
 def parsePOp : List String → Option POp
@@ -118,6 +123,29 @@ def step (D : Defects) (line : String) : String :=
     | some _, some n =>
       if decide (2 ≤ n ∧ n ≤ 64) && flagOk small && (splitOps rest).all gstmtOk then "same" else "bad-op"
     | _, _ => "bad-op"
+  | "sqlgrid" :: seed :: ncfg :: mode :: "|" :: _ =>
+    -- the same script under a grid of configurations. Mode `m`: the answer is the logical model's answer to the
+    -- script — a function of the script alone, the model has no configuration argument. Mode `x` (blown-up tables):
+    -- all configurations must agree, the answer is `same`.
+    match nat? seed, nat? ncfg, line.splitOn " | " with
+    | some _, some n, _ :: rest =>
+      if decide (2 ≤ n ∧ n ≤ 64) then
+        if mode = "m" then AxVerif.Drivers.sql [] (" | ".intercalate rest)
+        else if mode = "x" then
+          (match words (" | ".intercalate rest) with
+           | "sql" :: dbw :: ";" :: ws =>
+             (match AxVerif.Sql.parseDb dbw with
+              | some db => if ((AxVerif.Sql.splitStmts ws).map (AxVerif.Sql.pStmt db)).all Option.isSome then "same" else "bad-op"
+              | none => "bad-op")
+           | _ => "bad-op")
+        else "bad-op"
+      else "bad-op"
+    | _, _, _ => "bad-op"
+  | "histgrid" :: seed :: ncfg :: "|" :: _ =>
+    match nat? seed, nat? ncfg, line.splitOn " | " with
+    | some _, some n, _ :: rest =>
+      if decide (2 ≤ n ∧ n ≤ 64) && (AxVerif.Db.Drv.parseCase (" | ".intercalate rest)).isSome then "same" else "bad-op"
+    | _, _, _ => "bad-op"
   | "gridx" :: page :: cache :: pool :: mk :: sib :: ckpt :: "|" :: rest =>
     match nat? page, nat? cache, nat? pool, nat? mk, nat? sib with
     | some page, some cache, some pool, some mk, some sib =>
